@@ -78,6 +78,8 @@ def walk(gen, cid, o, path, out):
         if t == "embedded":
             walk(gen, k["cls"], v, p, out)
         elif t == "listof" and isinstance(v, list):
+            if v and all(isinstance(e, dict) for e in v):
+                out.append(("object-list", p, {"cid": k["cls"]}))
             for i, e in enumerate(v):
                 walk(gen, k["cls"], e, p + [i], out)
         elif t == "hashes" and isinstance(v, dict):
@@ -238,6 +240,8 @@ def injections(gen, cid, o):
             mut(lambda x: at(x, path).append(dict(member)), "registered custom object as bundle member at %s" % ps, False)
             mut(lambda x: at(x, path).append(dict(member, x_extra=1)),
                 "custom property in registered custom object as bundle member at %s" % ps, True)
+            mut(lambda x: at(x, path).insert(0, dict(member, x_extra=1)),
+                "custom property in registered custom object as FIRST bundle member at %s" % ps, True, {"always": True})
             mut(lambda x: at(x, path).append({"type": "x-custom-object", "id": "x-custom-object--" + U1, "foo": 1}),
                 "unregistered object type as bundle member at %s" % ps, True)
             # an unregistered type that declares itself through an (unregistered) extension definition: parse() hands
@@ -253,6 +257,21 @@ def injections(gen, cid, o):
         elif kind == "observed-members":
             mut(lambda x: at(x, path).__setitem__("99", {"type": "x-custom-observable", "value": "v"}),
                 "unregistered observable type as observed-data member at %s" % ps, True)
+            # custom content in ONE of several members, first or last: the flag is accumulated over the members
+            cm = {"type": "mutex", "name": "m", "foo_bar": 1}
+            sib = {"always": True}
+            mut(lambda x: set_at(x, path, dict([("c0", dict(cm))] + list(at(x, path).items()))),
+                "custom property in the first of several observed-data members at %s" % ps, True, sib)
+            mut(lambda x: set_at(x, path, dict(list(at(x, path).items()) + [("z9", dict(cm))])),
+                "custom property in the last of several observed-data members at %s" % ps, True, sib)
+        elif kind == "object-list":
+            # custom content in one of several elements of a list of embedded objects, first or last
+            sib = {"always": True}
+            name = r.choice(["x_custom_prop", "foo_bar"])
+            mut(lambda x: set_at(x, path, [dict(at(x, path)[0], **{name: 1})] + list(at(x, path))),
+                "custom property %s in the first of several list elements at %s (%s)" % (name, ps, ex["cid"]), True, sib)
+            mut(lambda x: set_at(x, path, list(at(x, path)) + [dict(at(x, path)[-1], **{name: 1})]),
+                "custom property %s in the last of several list elements at %s (%s)" % (name, ps, ex["cid"]), True, sib)
     return out
 
 
@@ -355,7 +374,7 @@ def gen_cases(run, per_class):
             cases.append({"route": route, "cid": cid, "data": o, "custom": False, "site": "uninjected"})
             inj = injections(gen, cid, o)
             # every site once for the first objects of a class, a sample afterwards
-            chosen = inj if i < 2 else r.sample(inj, min(len(inj), 6))
+            chosen = inj if i < 2 else (r.sample(inj, min(len(inj), 6)) + [t3 for t3 in inj if len(t3) > 3 and t3[3].get("always")])
             for tup in chosen:
                 site, custom, x = tup[:3]
                 extra = tup[3] if len(tup) > 3 else {}
@@ -367,12 +386,15 @@ def gen_cases(run, per_class):
                 if rt == "construct" and site.startswith("custom_properties key at <top>"):
                     custom = False      # the constructor's custom_properties= argument is itself the request
                 cs = dict({"route": rt, "cid": cid, "data": x, "custom": custom, "site": site},
-                          **{k0: v0 for k0, v0 in extra.items() if k0 != "force_route"})
+                          **{k0: v0 for k0, v0 in extra.items() if k0 not in ("force_route", "always")})
+                if r.random() < 0.06 and not cs.get("prebuilt"):
+                    # ... and once more after other (custom-carrying) objects of the class were made in the same process
+                    cs["twice"] = {"between": [{"route": "parse", "cid": cid, "data": y} for _, _, y in [t3[:3] for t3 in r.sample(inj, min(2, len(inj)))]]}
                 if rt == "construct" and site.startswith("custom_properties key at <top>"):
                     cs["requested"] = True
                 cases.append(cs)
                 key = site.split(" at ")[0]
-                for w in ("specification-defined properties", "pre-built instance carrying", "pre-built instance without", "custom property inside", "custom property given as null", "custom property in registered", "custom property", "hash algorithm",
+                for w in ("custom property in the first of several", "custom property in the last of several", "specification-defined properties", "pre-built instance carrying", "pre-built instance without", "custom property inside", "custom property given as null", "custom property in registered", "custom property", "hash algorithm",
                           "only hash algorithm", "recognised hash algorithm", "reference to custom type",
                           "reference to registered custom type", "reference to registered type", "unregistered extension type"):
                     if key.startswith(w):
@@ -491,7 +513,10 @@ def check(run):
         "injection site found by walking the object along the frozen tables (custom property at each object position, "
         "custom_properties key, hash algorithm, reference, extension, bundle / observed-data member, every nested object also "
         "given as a library object built beforehand under allow_custom=True with and without custom content, bundle members "
-        "of unregistered types declared by an extension definition), six sampled sites "
+        "of unregistered types declared by an extension definition, specification-defined properties inside the "
+        "constructor's custom_properties= argument), six sampled sites; unregistered top-level types and bundle members with "
+        "extensions of every shape; observable types registered only after they were looked up (parse_observable, parse, "
+        "observed-data member) against a type registered up front; observables also through parse_observable; six sampled sites "
         "for the others; each case under allow_custom False and True plus the strict reparse of the allow-mode "
         "serialization; non-trivial = the allow-mode or the strict run produced an object or the case carries custom content"
         % per_class)
